@@ -68,7 +68,7 @@ func kindWidth(k types.BasicKind) uint8 {
 	case types.Int, types.Int64, types.Uint, types.Uint64, types.Uintptr, types.UntypedInt:
 		return 64
 	}
-	panic(fmt.Sprintf("kindWidth: unsupported kind %v", k))
+	panic(fmt.Sprintf("symgo: internal: kindWidth: unsupported kind %v", k))
 }
 
 func kindSigned(k types.BasicKind) bool {
@@ -173,7 +173,7 @@ func fromBits(b uint64, k types.BasicKind) value {
 	case types.Uintptr:
 		return uintptr(b)
 	}
-	panic(fmt.Sprintf("fromBits: kind %v", k))
+	panic(fmt.Sprintf("symgo: internal: fromBits: kind %v", k))
 }
 
 // termOf converts a scalar value (concrete or symbolic) to a term.
@@ -183,7 +183,7 @@ func (m *Machine) termOf(v value) *Term {
 	}
 	b, ok := bitsOf(v)
 	if !ok {
-		panic(fmt.Sprintf("termOf: not a scalar: %T", v))
+		panic(fmt.Sprintf("symgo: internal: termOf: not a scalar: %T", v))
 	}
 	return m.F.Const(b, kindWidth(kindOf(v)))
 }
@@ -372,7 +372,7 @@ func strLen(v value) int {
 	case *SymStr:
 		return len(s.b)
 	}
-	panic(fmt.Sprintf("strLen: %T", v))
+	panic(fmt.Sprintf("symgo: internal: strLen: %T", v))
 }
 
 func strBytes(v value) []value {
@@ -386,7 +386,7 @@ func strBytes(v value) []value {
 	case *SymStr:
 		return s.b
 	}
-	panic(fmt.Sprintf("strBytes: %T", v))
+	panic(fmt.Sprintf("symgo: internal: strBytes: %T", v))
 }
 
 // mkStr builds a string value from byte values, concrete when possible. The slice is copied.
